@@ -60,7 +60,9 @@ func c01ReducedTexts() []string {
 		}
 	}
 	out = append(out, "/a/b/c", "/a/{p2}/c", "/{m1: **}/b/c", "/a/{m2: **}/c", "/{p1}/{m2: **}/c", "/a/b/?c", "/a/{n2: **, capture: 2}/{p3}",
-		"/{p1}/b/{m3: **}", "/{q1}/{q2}/c", "/a/b/{m3: **}")
+		"/{p1}/b/{m3: **}", "/{q1}/{q2}/c", "/a/b/{m3: **}",
+		// an optional last segment two levels below a match-all in the middle
+		"/{m1: **}/b/?c", "/a/{m2: **}/b/?{o4}")
 	return out
 }
 
@@ -534,7 +536,7 @@ func c01FlamePhase(r *core.Run, cat []catRoute, paths []string) {
 var c01WideTexts = []string{"/a", "/b", "/c", "/ab", "/a-b", "/a+b", "/{p1}", "/{r1: /[abc]+/}", "/{r1b: /a.*/}", "/{m1: **}",
 	"/a/a", "/a/b", "/a/c", "/a/ab", "/a/{p2}", "/a/{r2: /[ab]+/}", "/a/{r2b: /b|c/}", "/a/{m2: **}", "/a/{n2: **, capture: 1}/c",
 	"/{q1}/b", "/{q1b}/c", "/{s1: /a+/}/b", "/{k1: **}/c", "/{k1b: **, capture: 2}/b/c",
-	"/a/b/c", "/a/b/a", "/a/b/{p3}", "/a/b/{r3: /c+/}", "/a/{p2c}/c", "/a/{r2c: /[ab]+/}/c", "/b/?c", "/c/?{o2}", "/a/a/?b"}
+	"/a/b/c", "/a/b/a", "/a/b/{p3}", "/a/b/{r3: /c+/}", "/a/{p2c}/c", "/a/{r2c: /[ab]+/}/c", "/b/?c", "/c/?{o2}", "/a/a/?b", "/b/{m2w: **}/c/?{o4w}"}
 
 func c01Wide(r *core.Run, p *route.Parser, paths []string) {
 	cat, bad := mkCatalogue(p, c01WideTexts)
